@@ -83,7 +83,7 @@ def main():
     SEGS = ['', '.', '..', 'a', 'b:c', 'x', '%2e', '%2E%2e', 'a..', '...', '..a', '.a', 'a.', 'é', 'é..']
     for fam in ('uri', 'iri'):
         g = Gen(random.Random(rnd.random()), fam)
-        for i in range(8000 if thorough else 1500):
+        for i in range(40000 if thorough else 1500):
             if i % 40 == 0:   # beyond the 16-segment and 512-byte inline buffers
                 nseg = g.pick([17, 40, 200]); segl = [g.pick(['a', '..', '.', 'b' * 40, '']) for _ in range(nseg)]
             else:
